@@ -155,7 +155,7 @@ def make_op(o, prog, regs, numeric=None):
     if name in ("Interferometer", "GaussianTransform", "Gaussian"):
         n_ = len(o["m"])
         if name == "Interferometer":
-            return ops.Interferometer(seeded_unitary(o["useed"], n_), **kw)
+            return ops.Interferometer(np.identity(n_, dtype=complex) if o["useed"] == -1 else seeded_unitary(o["useed"], n_), **kw)
         if name == "GaussianTransform":
             return ops.GaussianTransform(seeded_symplectic(o["useed"], n_), **kw)
         import strawberryfields as sf
